@@ -226,9 +226,12 @@ theorem struct_agree_aux (hws : w.SupU false)
             IHo t' x (by have := List.sizeOf_lt_of_mem hx; omega) (supUL_mem hs.1 t' ht') hh)]
       | map k kt vt =>
         simp only [Ty.supU, Bool.and_eq_true] at hs
+        have hkt : k.target = Option.none := by simpa using hs.2
+        replace hs := hs.1
         cases o with
         | dict kvs =>
           rw [stF, stF]
+          simp only [mapRes_plain _ _ hkt]
           have hsc' : c1.tupleStrat = true ∨ ∀ p ∈ kvs, mapsAtCls w kt p.1 = true ∧ mapsAtCls w vt p.2 = true := by
             rcases hsc with h | h
             · exact Or.inl h
